@@ -197,7 +197,7 @@ def correspondence(ctx, model_ok=True):
     rng = ctx.rng.fork("c14")
     failures = []
     broken = []
-    cases = [gen_case(rng.fork("g%d" % i)) for i in range(1500 if ctx.thorough else 750)]
+    cases = [gen_case(rng.fork("g%d" % i)) for i in range(6000 if ctx.thorough else 750)]
     if ctx.thorough:
         cases += list(enumerate_cases())
     else:
